@@ -449,7 +449,7 @@ class SimComm(Intracomm):
         k = S.sent.get(key, 0)
         S.sent[key] = k + 1
         rdv = S.sem.rendezvous(f"{me}>{dest}#{k}")
-        msg = [k, kind, payload, False, meta]
+        msg = [k, kind, payload, False, meta, S.seq]      # S.seq: global posting order
         S.mail.setdefault(key, []).append(msg)
         S.event(kind, dest, k, "rdv" if rdv else "eager")
         if rdv:
@@ -463,6 +463,8 @@ class SimComm(Intracomm):
 
     def _match_recv(self, kind, source):
         S, me = self._sim, self._rank
+        if source is None or (isinstance(source, (int, np.integer)) and source < 0):
+            return self._match_any(kind)
         if not (isinstance(source, (int, np.integer)) and 0 <= source < S.n):
             raise ProtocolError(f"recv from invalid rank {source!r}")
         source = int(source)
@@ -484,12 +486,35 @@ class SimComm(Intracomm):
             raise ProtocolError(f"{kind} matched a message sent with {msg[1]}")
         return msg
 
+    def _match_any(self, kind):
+        """MPI_ANY_SOURCE: matches the message to this rank that was posted
+        first (per sender the order is fixed; between senders it is whatever
+        the schedule produced - which is exactly what the search varies)."""
+        S, me = self._sim, self._rank
+        S.stats["recv_any_source"] = S.stats.get("recv_any_source", 0) + 1
+
+        def heads():
+            out = []
+            for (src, dst), q in S.mail.items():
+                if dst == me:
+                    m = next((m for m in q if not m[3]), None)
+                    if m is not None:
+                        out.append((m[5], src, m))
+            return sorted(out, key=lambda t: (t[0], t[1]))
+        if not heads():
+            S.stats["recv_blocked"] += 1
+        S.park(lambda: bool(heads()), f"{kind}<-ANY")
+        _, src, msg = heads()[0]
+        msg[3] = True
+        S.event(kind, src, msg[0], "any-source")
+        if msg[1] != kind:
+            raise ProtocolError(f"{kind} matched a message sent with {msg[1]}")
+        return msg
+
     def send(self, obj, dest, tag=0):
         self._post_send("send", _pkl(obj), dest)
 
     def recv(self, buf=None, source=None, tag=0, status=None):
-        if source is None:
-            raise ProtocolError("recv with ANY_SOURCE is not modelled")
         self._sim.stats["recv"] += 1
         msg = self._match_recv("send", source)
         return pickle.loads(msg[2])
@@ -500,8 +525,6 @@ class SimComm(Intracomm):
         self._post_send("Send", _raw_bytes(a), dest, meta=(str(a.dtype), a.size))
 
     def Recv(self, buf, source=None, tag=0, status=None):
-        if source is None:
-            raise ProtocolError("Recv with ANY_SOURCE is not modelled")
         flat = _raw_view(buf, writable=True)
         self._sim.stats["Recv"] += 1
         msg = self._match_recv("Send", source)
